@@ -12,6 +12,38 @@ pub fn check(t: &Trace<'_>, out: &mut CaseOut) -> bool {
     let m = Model::build(t);
     let w = t.w;
     let mut nontrivial = false;
+    // what the broker holds open from earlier connections of its session: a QoS 2 PUBLISH it has
+    // received completely stays an open exchange there (whether or not its PUBREC reached the
+    // client, whether or not the client still knows about it) until the broker has sent PUBCOMP or
+    // a failing PUBREC for it, or has started a new session (CONNACK without session present).
+    // A QoS 1 PUBLISH is not carried: the broker has dealt with it when its connection ends.
+    let mut open_before: Vec<Vec<u16>> = Vec::new();
+    {
+        let mut open: Vec<u16> = Vec::new();
+        for ci in &t.conns {
+            if ci.connack.as_ref().is_some_and(|k| !k.0) || ci.connack.is_none() && ci.clean_start == Some(true) {
+                open.clear();
+            }
+            open_before.push(open.clone());
+            for e in w.events.iter().skip(ci.ev_begin).take(ci.ev_end.saturating_sub(ci.ev_begin) + 1) {
+                match e {
+                    Ev::CPkt { conn, idx } if *conn == ci.idx => {
+                        if let CPacket::Publish { qos: 2, pid: Some(p), .. } = &w.conns[*conn].out.packets[*idx].pkt {
+                            if !open.contains(p) {
+                                open.push(*p);
+                            }
+                        }
+                    }
+                    Ev::SPkt { conn, idx } if *conn == ci.idx => match &w.conns[*conn].in_pkts[*idx].pkt {
+                        Some(SPacket::PubComp { pid, .. }) => open.retain(|p| p != pid),
+                        Some(SPacket::PubRec { pid, reason, .. }) if reason.unwrap_or(0) >= 0x80 => open.retain(|p| p != pid),
+                        _ => {}
+                    },
+                    _ => {}
+                }
+            }
+        }
+    }
     for ci in t.conns.iter().filter(|c| c.established) {
         let rm = ci.rm as usize;
         let t0 = t.log.ops[ci.connect_op.unwrap()].ev_ret;
@@ -21,6 +53,14 @@ pub fn check(t: &Trace<'_>, out: &mut CaseOut) -> bool {
         } else {
             vec![]
         };
+        if ci.connack.as_ref().is_some_and(|k| k.0) && !t.log.hostile {
+            for p in &open_before[ci.idx] {
+                if !unresolved.contains(p) {
+                    unresolved.push(*p);
+                    out.count("qos2_exchanges_open_at_the_broker_carried_into_a_resumed_connection", 1);
+                }
+            }
+        }
         let carried = unresolved.len();
         let resumed_with_inflight = ci.connack.as_ref().is_some_and(|k| k.0)
             && m.msgs.iter().any(|x| x.is_publish() && x.ev_accept < ci.ev_begin && x.outstanding_at(t0));
